@@ -250,10 +250,35 @@ def runCase (m : Mode) (args : List String) : String :=
         | some res => showResult res
   | _ => "bad-op"
 
+def showIdx (L : List Idx) : String :=
+  dash (",".intercalate (L.map fun e => toString e.g ++ ":" ++ toString e.a ++ ":" ++ toString e.d))
+
+/-- `fieldprops.mgr nx ny nz actbits <op>*` with <op> := I b*6 | K b*6 | EI | EK | ES (zero-based ints);
+answer: after every call the index list of the active box, or `err` if the call threw -/
+partial def runMgr (D : Dims) (A : List Bool) (m : BoxMgr) (ts : List String) (acc : List String) : String :=
+  let after := fun (r : Option BoxMgr) (rest : List String) =>
+    match r with
+    | some m' => runMgr D A m' rest (showIdx (indexList D A (m'.active D)) :: acc)
+    | none => runMgr D A m rest ("err" :: acc)
+  match ts with
+  | [] => ";".intercalate acc.reverse
+  | "I" :: a :: b :: c :: d :: e :: f :: rest =>
+    after (m.step D (.setInput a.toInt! b.toInt! c.toInt! d.toInt! e.toInt! f.toInt!)) rest
+  | "K" :: a :: b :: c :: d :: e :: f :: rest =>
+    after (m.step D (.setKeyword a.toInt! b.toInt! c.toInt! d.toInt! e.toInt! f.toInt!)) rest
+  | "EI" :: rest => after (m.step D .endInput) rest
+  | "EK" :: rest => after (m.step D .endKeyword) rest
+  | "ES" :: rest => after (m.step D .endSection) rest
+  | _ => "bad-op"
+
 def handle (op : String) (args : List String) : String :=
   match op with
   | "fieldprops.impl" => runCase .impl args
   | "fieldprops.ref" => runCase .ref args
+  | "fieldprops.mgr" =>
+    match args with
+    | nx :: ny :: nz :: act :: rest => runMgr ⟨nx.toNat!, ny.toNat!, nz.toNat!⟩ (parseBits act) ⟨none, none⟩ rest []
+    | _ => "bad-op"
   | "fieldprops.idx" =>
     match args with
     | [nx, ny, nz, act, i1, i2, j1, j2, k1, k2] =>
@@ -261,8 +286,7 @@ def handle (op : String) (args : List String) : String :=
       match Box.init D i1.toInt! i2.toInt! j1.toInt! j2.toInt! k1.toInt! k2.toInt! with
       | none => "err"
       | some b =>
-        dash (",".intercalate ((indexList D (parseBits act) b).map fun e =>
-          toString e.g ++ ":" ++ toString e.a ++ ":" ++ toString e.d))
+        showIdx (indexList D (parseBits act) b)
     | _ => "bad-op"
   | _ => "bad-op"
 
